@@ -330,6 +330,10 @@ pub async fn handle_srt_packet(
                     || srtla_protocol::is_srt_data_retransmit(pkt))
                 && let Some(best_idx) = srtla_core::priority::select_best_quality_idx(connections)
                 && sel_idx != Some(best_idx)
+                // The override must stay within the scheduler's eligibility
+                // rules: a link that has already gone silent past its timeout
+                // (not yet torn down by housekeeping) is not a "best path".
+                && !connections[best_idx].is_timed_out(packet_time_ms)
             {
                 trace!(
                     "critical override (window/retransmit): link {} -> {}",
